@@ -180,6 +180,9 @@ int main(void)
     do_set(t3, pick(6, 7));
     check_slots();
 #if MORE
+#if defined(KF_EXCLUDE_C41_RESIZE_MEMSET) && NB0 == 0
+    if (tas_match) VWITNESS("growth from empty and accesses, before the second growth (which is inside the recorded class)");
+#endif
     /* one more registration and a second growth */
     reg_one();
     do_tas(nreg - 1, &vals[8], pick(9, 9));
